@@ -77,6 +77,28 @@ func (f *faultCloner) Clone(in interface{}) (interface{}, error) {
 	return f.inner.Clone(in)
 }
 
+// gatedCloner makes the copy of a unary request a schedule point: Copy parks at
+// the gate "unary.copy" before it reads anything, i.e. inside the decode
+// callback the library hands to the handler, after whatever check the library
+// makes and before the request object is read.
+type gatedCloner struct{ inner inprocgrpc.Cloner }
+
+func (g gatedCloner) Copy(out, in interface{}) error {
+	gateHook("unary.copy")
+	return g.inner.Copy(out, in)
+}
+
+func (g gatedCloner) Clone(in interface{}) (interface{}, error) { return g.inner.Clone(in) }
+
 func clonerFor(sc *Script) inprocgrpc.Cloner {
-	return baseCloner(sc.Cloner)
+	cl := baseCloner(sc.Cloner)
+	for _, p := range sc.Gates {
+		if p == "unary.copy" {
+			if cl == nil {
+				cl = inprocgrpc.ProtoCloner{}
+			}
+			return gatedCloner{cl}
+		}
+	}
+	return cl
 }
